@@ -30,7 +30,8 @@ EXPLANATION = (
     'magnitudes the scaling helper receives the largest entry first; (D9) in update_block every application of reflector k is '
     'dominated by compute_reflector(.., k), left blocks start at row k and right blocks at column k, row 0; apply_QtY / apply_YQ '
     'apply the reflectors in ascending order at offset = index (Q = P0 P1 ...). (D10) row / column copies used inside the loops are '
-    'refreshed on every path of an iteration. NOT decided: orthogonality, Q R = H - s I and Q\'HQ to n*eps (rounding), the '
+    'refreshed on every path of an iteration; (D11) every square root in the helpers is taken of a scaled quantity (1 + ratios), '
+    'never of a raw sum of squares (overflow / underflow of the squares for entries near the thresholds). NOT decided: orthogonality, Q R = H - s I and Q\'HQ to n*eps (rounding), the '
     'Taylor branches of the magnitude helpers, deflation thresholds and block splitting (index safety of the blocks is C13). '
     'Those clauses of the property remain undecided by this technique.')
 ASSUMPTIONS = ['column-major storage of Eigen::Matrix (Rii[1] is the entry below Rii[0]; p + m_n is the same row of the next column)',
@@ -1139,8 +1140,44 @@ def _ds_consumer(ctx, fn):
               'ascending reflector index from 0, %s at offset = index' % want if not probs else '; '.join(sorted(set(probs))))
 
 
+def scaled_norms(ctx, rule='norm-computed-in-scaled-form'):
+    """The property quantifies over entries near the overflow / underflow thresholds: a norm sqrt(x^2 + y^2 [+ z^2]) of raw
+    entries overflows (or flushes to zero) although the norm itself is representable.  Every square root in the QR helpers must
+    therefore be taken of a SCALED quantity, syntactically 1 + (sum of products of ratios); hypot / the scaled helpers are the
+    accepted ways to obtain a norm."""
+    n = 0
+    seen = set()
+    for fn in ctx.F.concrete():
+        if fn.cls not in ('Spectra::UpperHessenbergQR', 'Spectra::TridiagQR', 'Spectra::DoubleShiftQR') or not fn.cfg or fn.mangled in seen:
+            continue
+        seen.add(fn.mangled)
+        for x in fn.walk():
+            if x['k'] == 'CallExpr' and x.get('callee') == 'sqrt':
+                n += 1
+                t = sym(fn, fn.call_args(x)[0])
+                terms = _addends(t)
+                has_one = any(a == ('lit', '1') for a in terms)
+                squares = [a for a in terms if isinstance(a, tuple) and ((a[0] == '*' and len(a) == 3 and a[1] == a[2]) or (a[0] == 'call' and a[1] in ('abs2', 'norm')))]
+                inst = '%s::%s' % (fn.cls.replace('Spectra::', ''), fn.name)
+                if has_one:
+                    ctx.ok(rule, inst, fn.qname, 'sqrt(%s): scaled form 1 + ...' % show(t))
+                elif squares and len(squares) == len(terms):
+                    ctx.fail(rule, inst, fn.qname, 'sqrt(%s): a sum of squares of unscaled entries overflows / underflows for entries beyond sqrt(max) / below sqrt(min) although the norm is representable; use hypot or the scaled helper' % show(t))
+                else:
+                    raise AnalysisBroken('%s: sqrt argument %s is neither a scaled form nor a plain sum of squares' % (fn.qname, show(t)))
+    if n < 3:
+        raise AnalysisBroken('only %d square roots found in the QR helpers (3 confirmed by hand)' % n)
+
+
+def _addends(t):
+    if isinstance(t, tuple) and t[0] == '+' and len(t) == 3:
+        return _addends(t[1]) + _addends(t[2])
+    return [t]
+
+
 def run(ctx):
     rotations(ctx)
     double_shift(ctx)
+    scaled_norms(ctx)
     from . import stale
     stale.loop_buffers(ctx, scope=lambda fn: fn.cls in ('Spectra::UpperHessenbergQR', 'Spectra::TridiagQR', 'Spectra::DoubleShiftQR'), min_instances=4)
